@@ -909,7 +909,9 @@ fn judge(scn: &QueueScn, end: &EndState, sh: &Shared) -> Verdict {
                 Log::SinkCall(..) => calls_so_far += 1,
                 Log::SinkPanic(_) => panics_so_far += 1,
                 Log::Counters { quiescent, panics, submitted, drained, queued, .. } => {
-                    if *queued > total_emits || *queued > *submitted {
+                    // the two figures are read one after the other: comparing them is only meaningful when
+                    // nobody else can emit in between (no producer threads) or at a quiescent moment
+                    if *queued > total_emits || ((*quiescent || scn.prods.is_empty()) && *queued > *submitted) {
                         br(&mut out, &["C15"], "queued-out-of-range", format!("queued()={} with submitted()={} (total emits {})", queued, submitted, total_emits));
                     }
                     if *quiescent {
@@ -936,7 +938,11 @@ fn judge(scn: &QueueScn, end: &EndState, sh: &Shared) -> Verdict {
                 }
                 Log::Sample { queued, submitted } => {
                     flags.push("sampled");
-                    if *queued > *submitted || *queued > total_emits || *submitted > total_emits {
+                    // read one after the other while others emit: each is bounded by the number of emits the
+                    // program makes (a wrapped-around or over-counting figure is far above it); comparing the
+                    // two with each other would assume that submitted() never goes down, which the statement
+                    // does not say (counting first and taking a refused entry back is conforming)
+                    if *queued > total_emits || *submitted > total_emits {
                         br(&mut out, &["C15"], "sample-out-of-range", format!("a concurrent sample saw queued()={} then submitted()={} (total emits in the program: {})", queued, submitted, total_emits));
                     }
                 }
